@@ -7,6 +7,7 @@ so that a hang can be killed.  Output: list of {id, cfg, ev} (Trace_ParallelMap 
 import json
 import multiprocessing as real_mp
 import os
+import re
 import shutil
 import signal
 import sys
@@ -27,6 +28,33 @@ class TaskError(Exception):
 
     def __reduce__(self):
         return (TaskError, (self.c, self.i))
+
+
+class AwkwardError(Exception):
+    """module-level, but its constructor does not take just the message: cannot be rebuilt from (class, args)"""
+
+    def __init__(self, c, i):
+        super().__init__("task %d of call %d failed" % (i, c))
+
+
+def raise_failure(kind, c, i):
+    """the ways a task of the library can fail: the exception classes of hypnotoad are not all picklable (MaxIterException is defined
+    inside followPerpendicular); whatever the class, the caller must get an exception that names the failure, and no hang"""
+    if kind == "local":
+        class LocalError(Exception):
+            pass
+
+        raise LocalError("task %d of call %d failed" % (i, c))
+    if kind == "attr":
+        e = ValueError("task %d of call %d failed" % (i, c))
+        e.callback = lambda: None
+        raise e
+    if kind == "ctor":
+        raise AwkwardError(c, i)
+    raise TaskError(c, i)
+
+
+_MSG = re.compile(r"task (\d+) of call (\d+) failed")
 
 
 class Eq:
@@ -56,6 +84,9 @@ def find_exc(o, depth=0):
         return o
     if depth > 4 or o is None:
         return None
+    if isinstance(o, str):
+        m = _MSG.search(o)
+        return TaskError(int(m.group(2)), int(m.group(1))) if m else None
     if isinstance(o, BaseException):
         for a in (o.__cause__, o.__context__) + tuple(o.args):
             r = find_exc(a, depth + 1)
@@ -140,7 +171,7 @@ def task(c, i, *, equilibrium, psi, f_R, f_Z):
         log({"op": "serial", "c": c, "i": i + 1})
     time.sleep(RUN["delays"][c - 1][i] / 1000.0)
     if (i + 1) in RUN["fail"][c - 1]:
-        raise TaskError(c, i + 1)
+        raise_failure(RUN.get("exckind", "plain"), c, i + 1)
     return ("val", c, i + 1)
 
 
